@@ -99,6 +99,9 @@ type SourceScript struct {
 	// "~late:<name>.ackrecv", which sorts after every other alternative (the engine's ack sender stays blocked in Send
 	// until nothing else can run).
 	LateAckRecv bool
+	// IdleBatches lists batch indices whose FIRST read is an "~~idle:" gate: by default the source produces that batch only
+	// once the engine has no timer left to fire (a quiet period longer than any back-off / retry window).
+	IdleBatches []int
 	Faults      bool
 	// PositionOf overrides the position bytes of a record (C09 shapes: empty / duplicate positions).
 	PositionOf func(i int) opencdc.Position
@@ -123,6 +126,7 @@ type Source struct {
 	stopRead context.CancelFunc
 	loopDone chan struct{}
 	ackDone  chan struct{} // closed when the ack receiver of the current run has exited (the stream was closed)
+	idleUsed map[int]bool  // batches whose idle first read was already used (later epochs read them normally)
 }
 
 func (s *Source) menu(gated bool) []string {
@@ -212,7 +216,7 @@ func (s *Source) Run(ctx context.Context, stream pconnector.SourceRunStream) err
 	var runErr error
 	func() {
 		defer close(loopDone)
-		for _, b := range s.S.Batches {
+		for bi, b := range s.S.Batches {
 			var recs []opencdc.Record
 			for _, i := range b {
 				if i >= resume {
@@ -222,7 +226,19 @@ func (s *Source) Run(ctx context.Context, stream pconnector.SourceRunStream) err
 			if len(recs) == 0 {
 				continue
 			}
-			a := s.W.Gate(readCtx, s.S.Name+".read", menu...)
+			gate := s.S.Name + ".read"
+			for _, ib := range s.S.IdleBatches {
+				if ib == bi && !s.idleUsed[bi] {
+					gate = "~~idle:" + gate
+				}
+			}
+			a := s.W.Gate(readCtx, gate, menu...)
+			if a == "ok" {
+				if s.idleUsed == nil {
+					s.idleUsed = map[int]bool{}
+				}
+				s.idleUsed[bi] = true // only the first successful read of the batch waits for the quiet period
+			}
 			if a == "err" {
 				s.W.Log(s.S.Name, "readerr", -1, "")
 				runErr = cerrors.Errorf("%s: read failed", s.S.Name)
@@ -323,10 +339,12 @@ type DestScript struct {
 	// answers of C09: "wrongpos", "extra", "none", "reorder", "dup", "empty" (responses without acks), "chunkextra".
 	AckMenu []string
 	// MenuFor overrides AckMenu per request (k = ordinal of the request, n = records in it).
-	MenuFor      func(k, n int) []string
-	GateOpen     bool
-	GateTeardown bool
-	Faults       bool
+	MenuFor func(k, n int) []string
+	// ScriptAcrossRuns counts k over the whole history (all runs of the connector) instead of per run.
+	ScriptAcrossRuns bool
+	GateOpen         bool
+	GateTeardown     bool
+	Faults           bool
 	// LateOpen names the Open gate "~late:<name>.open": it sorts after every other alternative, so by default the
 	// destination stays in Open until nothing else can run (exploration order only; the space is unchanged).
 	LateOpen bool
@@ -343,6 +361,7 @@ type Dest struct {
 
 	mu    sync.Mutex
 	flush chan struct{} // Stop asks the running stream to flush acks it deferred ("defer" answer = batching destination)
+	reqs  int           // write requests seen over all runs (ScriptAcrossRuns)
 }
 
 func (d *Dest) Configure(context.Context, pconnector.DestinationConfigureRequest) (pconnector.DestinationConfigureResponse, error) {
@@ -435,6 +454,12 @@ func (d *Dest) Run(ctx context.Context, stream pconnector.DestinationRunStream) 
 		menu := d.S.AckMenu
 		if d.S.MenuFor != nil {
 			menu = d.S.MenuFor(k, len(recs))
+			if d.S.ScriptAcrossRuns {
+				d.mu.Lock()
+				menu = d.S.MenuFor(d.reqs, len(recs))
+				d.reqs++
+				d.mu.Unlock()
+			}
 		}
 		if len(menu) == 0 {
 			menu = []string{"ok"}
